@@ -385,6 +385,15 @@ def fresh_shape(e: ast.expr):
         if "len(gateway.nodes)" in txt:
             return False, "a count-based id collides with a registered id as soon as the registry is sparse (ids 1 and 3 registered -> 3 is handed out again)"
         if max_plus(e) is not None:
+            mx_ = e.left if isinstance(e.left, ast.Call) else e.right
+            dk_ = [k for k in mx_.keywords if k.arg == "default"] if isinstance(mx_, ast.Call) else []
+            if dk_ and isinstance(dk_[0].value, ast.Constant) and isinstance(dk_[0].value.value, int) and len(mx_.keywords) == 1:
+                c_ = max_plus(e)
+                if c_ < 1:
+                    return False, f"max(registered) + {c_} is not above the highest registered id: an id in use is handed out again"
+                if dk_[0].value.value + c_ != 1:
+                    return False, f"with an empty registry the id is {dk_[0].value.value + c_!r}; the first id must be 1 (0 is the gateway, 255 broadcast)"
+                return True, "max(registered, default=0) + 1: above every registered id, 1 when the registry is empty"
             return False, "max() of an empty registry raises ValueError: the empty case is not handled"
     if isinstance(e, ast.Call) and norm(e.func) == "len":
         return False, "a count-based id collides with registered ids"
@@ -412,6 +421,16 @@ def interval_truth(ctx: Ctx, f, test: ast.expr, var: str):
         except Exception:  # noqa: BLE001
             return None
 
+    if isinstance(a, ast.Name) and a.id == var and isinstance(op, ast.NotIn):
+        # `var not in range(lo, hi)` with a constant range that starts at or below 1: true from hi upwards (the values
+        # considered are >= 1)
+        try:
+            r = ctx.folder.plain(ctx.folder.fold(f.module, b))
+        except Exception:  # noqa: BLE001
+            r = None
+        if isinstance(r, range) and r.step == 1 and r.start <= 1 < r.stop:
+            return r.stop, r.stop - 1
+        return None
     if isinstance(a, ast.Name) and a.id == var:
         c = const(b)
         if c is None:
